@@ -1,2 +1,10 @@
 import ParryModel.C15.Theorems
 #print axioms C15.orientation2d_spec
+#print axioms C15.segDenom_eq
+#print axioms C15.segments_nonparallel
+#print axioms C15.pinned_onvertex_rule_refuted
+#print axioms C15.edgePerp_eq
+#print axioms C15.point_in_convex_poly2d_iff
+#print axioms C15.point_in_poly2d_iff
+#print axioms C15.corner_direction_spec
+#print axioms C15.is_point_in_triangle_iff
